@@ -1,0 +1,34 @@
+//go:build verif
+
+package sam
+
+// VerifCigarProbe evaluates one operator function of one of the four CIGAR
+// operator tables on the given arguments, for the verification harness.
+// table: 0 = NoInsertions, 1 = WithInsertions, 2 = NoInsertionsWithRef, 3 = WithInsertionsWithRef.
+// ok is false when the table has no entry for op.
+func VerifCigarProbe(table int, op string, qstart, rstart, length int, seq, ref []byte) (newQ, newR int, ext, refext []byte, ok bool) {
+	switch table {
+	case 0, 1:
+		m := getCigarOperationMapNoInsertions()
+		if table == 1 {
+			m = getCigarOperationMapWithInsertions()
+		}
+		f, found := m[op]
+		if !found {
+			return 0, 0, nil, nil, false
+		}
+		newQ, newR, ext = f(qstart, rstart, length, seq)
+		return newQ, newR, ext, nil, true
+	default:
+		m := getCigarOperationMapNoInsertionsWithRef()
+		if table == 3 {
+			m = getCigarOperationMapWithInsertionsWithRef()
+		}
+		f, found := m[op]
+		if !found {
+			return 0, 0, nil, nil, false
+		}
+		newQ, newR, ext, refext = f(qstart, rstart, length, seq, ref)
+		return newQ, newR, ext, refext, true
+	}
+}
